@@ -36,6 +36,8 @@ type hdStats struct {
 	Players    map[string]int `json:"participants_per_hand"`
 	Structures map[string]int `json:"blind_structures"`
 	Stuck      int            `json:"stuck_hands"`
+	Withheld   int            `json:"withheld_responses_waited_out"`
+	Crashed    int            `json:"crashed_histories"`
 	MaxSteps   int            `json:"max_backend_calls_per_hand"`
 	Distinct   int            `json:"distinct_histories"`
 	Samples    []string       `json:"samples"`
@@ -55,6 +57,7 @@ func mergeHD(d, s *hdStats) {
 	d.Probes += s.Probes
 	d.Faults += s.Faults
 	d.Stuck += s.Stuck
+	d.Withheld += s.Withheld
 	if s.MaxSteps > d.MaxSteps {
 		d.MaxSteps = s.MaxSteps
 	}
@@ -90,9 +93,15 @@ type hdHist struct {
 	t0          int64 // wall-clock second before the call that may have caused the states being written
 	written     int64 // UpdatedAt of the last hand state written to the trace
 	answered    int64 // UpdatedAt of the request state whose answers have been sent
+	withholdAt  string // at the first request of this kind one asked player stays silent and the 17 s time-out is waited out
+	withheld    bool
 }
 
-func (h *hdHist) line(format string, a ...interface{}) { fmt.Fprintf(h.w, format+"\n", a...) }
+func (h *hdHist) line(format string, a ...interface{}) {
+	s := fmt.Sprintf(format+"\n", a...)
+	h.w.WriteString(s)
+	streamLine(s)
+}
 
 func joinStr(xs []string, sep string) string {
 	if len(xs) == 0 {
@@ -517,8 +526,19 @@ func (h *hdHist) playHandSteps(maxSteps int) bool {
 				return false
 			}
 			perm := h.r.Perm(len(asked))
+			silent := -1
+			if h.withholdAt == gs.Status.CurrentEvent && !h.withheld {
+				h.withheld = true
+				silent = asked[h.r.Intn(len(asked))]
+				if gs.Status.CurrentEvent == "BlindsRequested" && h.r.Intn(2) == 0 {
+					silent = asked[len(asked)-1] // the highest game index asked (the big blind in a ring hand)
+				}
+			}
 			for _, k := range perm {
 				gi := asked[k]
+				if gi == silent {
+					continue
+				}
 				arg := int64(0)
 				if kind == "pay" {
 					switch {
@@ -535,6 +555,22 @@ func (h *hdHist) playHandSteps(maxSteps int) bool {
 				h.submit(actSpec{gameIDs[gi], kind, arg}, false, false)
 				if h.r.Intn(6) == 0 && k != perm[len(perm)-1] { // a repeated answer (not by the last one: the group completes asynchronously)
 					h.submit(actSpec{gameIDs[gi], kind, arg}, false, false)
+				}
+			}
+			if silent >= 0 {
+				// everybody else has answered; the hand must move on by itself when the response time-out (17 s) passes
+				t0 := time.Now()
+				moved := waitFor(21*time.Second, func() bool {
+					t := h.rig.live()
+					g := t.State.GameState
+					return g == nil || t.State.GameCount != gc || g.UpdatedAt != gs.UpdatedAt
+				})
+				ms := time.Since(t0).Milliseconds()
+				h.line("hd withheld gi=%d ev=%s asked=%d | advanced=%s ms=%d", silent, gs.Status.CurrentEvent, len(asked), b01(moved), ms)
+				h.st.Withheld++
+				if !moved {
+					h.st.Stuck++
+					return false
 				}
 			}
 		case "RoundStarted":
@@ -579,8 +615,8 @@ func (h *hdHist) playHandSteps(maxSteps int) bool {
 	return false
 }
 
-func genHDHistory(r *rand.Rand, st *hdStats, hid int, hands int, faultPct, probePct, internalPct int) string {
-	h := &hdHist{w: &strings.Builder{}, r: r, st: st, faultPct: faultPct, probePct: probePct, internalPct: internalPct}
+func genHDHistory(r *rand.Rand, st *hdStats, hid int, hands int, faultPct, probePct, internalPct int, withholdAt string) string {
+	h := &hdHist{w: &strings.Builder{}, r: r, st: st, faultPct: faultPct, probePct: probePct, internalPct: internalPct, withholdAt: withholdAt}
 	maxSeat := 9
 	n := 2 + r.Intn(6)
 	blind := pokertable.TableBlindState{Level: 1, Ante: 0, Dealer: 0, SB: 10, BB: 20}
@@ -600,6 +636,16 @@ func genHDHistory(r *rand.Rand, st *hdStats, hid int, hands int, faultPct, probe
 		blind.Ante = 5
 		blind.Dealer = 5
 		structure = "ante+dealer+sb-bb"
+	}
+	if withholdAt == "AnteRequested" && blind.Ante == 0 {
+		blind.Ante = 2
+		structure = "ante+" + structure
+	}
+	if withholdAt != "" {
+		h.faultPct, h.internalPct = 0, 0
+		if n < 3 && r.Intn(3) != 0 {
+			n = 3 + r.Intn(4) // mostly ring hands: the blind positions are not game indexes 0..k-1 there
+		}
 	}
 	st.Structures[structure]++
 	actionTime := 7
@@ -714,9 +760,49 @@ func runHand(args []string) {
 	faultPct := fs.Int("faults", 8, "percentage of player actions whose backend call is made to fail once")
 	probePct := fs.Int("probes", 60, "percentage of decision points at which illegal submissions are tried")
 	internalPct := fs.Int("internal", 6, "percentage of hands in which one of the engine's own backend steps is made to fail")
+	withhold := fs.Int("withhold", 0, "extra histories (numbered after the first n) in which one asked player stays silent at a request and the 17 s time-out is waited out")
+	child := fs.Bool("child", false, "child process: histories [from,to), one table at a time")
+	inproc := fs.Bool("inproc", false, "generate in this process (mgr mode: all tables share one manager)")
+	from := fs.Int("from", 0, "first history (child)")
+	to := fs.Int("to", -1, "one past the last history (child)")
+	stream := fs.String("stream", "", "append every line to this file at once (single-history child)")
 	fs.Parse(args)
 	devnull, _ := os.OpenFile(os.DevNull, os.O_WRONLY, 0)
 	os.Stdout = devnull
+
+	one := func(hid int) (string, *hdStats) {
+		r := rand.New(rand.NewSource(*seed*9973 + int64(hid)*131071 + 3))
+		sub := newHDStats()
+		wh := ""
+		hh := *hands
+		if hid >= *n {
+			wh = []string{"BlindsRequested", "ReadyRequested", "AnteRequested", "BlindsRequested"}[(hid-*n)%4]
+			hh = 1
+		}
+		return genHDHistory(r, sub, hid, hh, *faultPct, *probePct, *internalPct, wh), sub
+	}
+
+	if *child {
+		f, err := os.Create(*out)
+		if err != nil {
+			fmt.Fprintln(os.Stderr, err)
+			os.Exit(2)
+		}
+		if *stream != "" {
+			streamTo, _ = os.Create(*stream)
+		}
+		for hid := *from; hid < *to; hid++ {
+			s, sub := one(hid)
+			b, _ := json.Marshal(sub)
+			f.WriteString(s)
+			if !strings.HasSuffix(s, "\n") {
+				f.WriteString("\n")
+			}
+			fmt.Fprintf(f, "#stats %d %s\n", hid, b)
+		}
+		f.Close()
+		return
+	}
 
 	f, err := os.Create(*out)
 	if err != nil {
@@ -726,29 +812,64 @@ func runHand(args []string) {
 	w := bufio.NewWriterSize(f, 1<<20)
 	st := newHDStats()
 	seen := map[uint64]bool{}
-	var mu sync.Mutex
-	var wg sync.WaitGroup
-	per := (*n + *workers - 1) / *workers
-	for wk := 0; wk < *workers; wk++ {
-		wg.Add(1)
-		go func(wk int) {
-			defer wg.Done()
-			r := rand.New(rand.NewSource(*seed*9973 + int64(wk)*131))
-			for i := 0; i < per && wk*per+i < *n; i++ {
-				sub := newHDStats()
-				s := genHDHistory(r, sub, wk*per+i, *hands, *faultPct, *probePct, *internalPct)
-				mu.Lock()
-				w.WriteString(s)
-				seen[fnv64(stripHistID(s))] = true
-				if len(st.Samples) < 1 && len(s) < 20000 {
-					st.Samples = append(st.Samples, s)
-				}
-				mergeHD(st, sub)
-				mu.Unlock()
-			}
-		}(wk)
+	add := func(s string, sub *hdStats) {
+		seen[fnv64(stripHistID(s))] = true
+		if len(st.Samples) < 1 && len(s) < 20000 {
+			st.Samples = append(st.Samples, s)
+		}
+		if sub != nil {
+			mergeHD(st, sub)
+		}
 	}
-	wg.Wait()
+	if *inproc {
+		var mu sync.Mutex
+		var wg sync.WaitGroup
+		next := 0
+		for wk := 0; wk < *workers; wk++ {
+			wg.Add(1)
+			go func() {
+				defer wg.Done()
+				for {
+					mu.Lock()
+					hid := next
+					next++
+					mu.Unlock()
+					if hid >= *n+*withhold {
+						return
+					}
+					s, sub := one(hid)
+					mu.Lock()
+					w.WriteString(s)
+					add(s, sub)
+					mu.Unlock()
+				}
+			}()
+		}
+		wg.Wait()
+	} else {
+		pass := []string{"-seed", fmt.Sprint(*seed), "-n", fmt.Sprint(*n), "-hands", fmt.Sprint(*hands), "-faults", fmt.Sprint(*faultPct), "-probes", fmt.Sprint(*probePct), "-internal", fmt.Sprint(*internalPct)}
+		recs, crashes, unattributed := superviseRun("hand", "hd", pass, *n, *workers, *out)
+		if *withhold > 0 {
+			// the waited-out time-outs: one child per history, all at once (each sleeps 17 s)
+			r2, c2, u2 := superviseRunRange("hand", "hd", pass, *n, *n+*withhold, *withhold, *out+".wh")
+			recs = append(recs, r2...)
+			crashes += c2
+			unattributed += u2
+		}
+		for _, rc := range recs {
+			w.WriteString(rc.text)
+			var sub *hdStats
+			if rc.stats != nil {
+				sub = newHDStats()
+				json.Unmarshal(rc.stats, sub)
+			}
+			add(rc.text, sub)
+		}
+		st.Crashed = crashes
+		for i := 0; i < unattributed; i++ {
+			w.WriteString("cc anomaly CRASH.unattributed-engine-panic\n")
+		}
+	}
 	w.Flush()
 	f.Close()
 	st.Distinct = len(seen)
